@@ -65,6 +65,10 @@ mod imp {
             "vrank" => pv.vrank::<ProbeOut<f64>, f64>(flag_a, flag_b).cells(),
             "vpartition" => drain(pv.vpartition(k, flag_a, flag_b), |v: &f64| Cell::f(*v)).cells,
             "varg_partition" => drain(pv.varg_partition(k, flag_a, flag_b), |v: &i32| Cell::I(*v as i64)).cells,
+            // the same iterators through a trusted collector into the instrumented container: an iterator that
+            // yields more than it announces makes the collector write behind the buffer it allocated (round 11)
+            "vpartition.collect_trusted" => pv.vpartition(k, flag_a, flag_b).collect_trusted_vec1::<ProbeOut<f64>>().cells(),
+            "varg_partition.collect_trusted" => pv.varg_partition(k, flag_a, flag_b).collect_trusted_vec1::<ProbeOut<i32>>().titer().map(|v| Cell::I(v as i64)).collect(),
             "vquantile" => {
                 let q = k as f64 / 4.0;
                 let m = match (flag_a, flag_b) {
@@ -382,7 +386,7 @@ fn check_series(fam: &str, word: &[u8], x: Vec<X>, ctx: &mut Ctx) {
         }
     }
     for k in ks {
-        for (name, flags) in [("vpartition", 4), ("varg_partition", 4), ("vquantile", 4)] {
+        for (name, flags) in [("vpartition", 4), ("varg_partition", 4), ("vpartition.collect_trusted", 4), ("varg_partition.collect_trusted", 4), ("vquantile", 4)] {
             if name == "vquantile" && k > 4 {
                 continue;
             }
@@ -561,7 +565,7 @@ fn main() {
         total.merge(par_items(&items, run.threads, |(_l, x), ctx| check_layouts("caller-layouts", &[], x, ctx)));
     }
     let meta = Meta {
-        rule: "history tree of every word over {null,0,1,2}; at each word every rolling entry point (null-aware, plain, two-series), vrank, vpartition, varg_partition, vquantile, Spearman vcorr and half_life run (a) on an instrumented input container recording every uget / uslice and (b) on real Vec / Array1 inputs (fast paths), always into an instrumented output container recording every uset, via the returned and the caller-buffer path; windows 0..=len+3, every min_periods, k in 0..=len+2, second series of length len-1 ..= len+3. The same on long structured series (40 / 270 elements, windows 0, 1, 2, 16, 17, 255..257, len-1..len+3, k around 16 and len). Oracle (monitor): no recorded fault - no index >= len, no slice outside 0<=start<=end<=len, no write outside the buffer, every slot written exactly once at assume_init. Transitions = instrumented accesses observed. Non-trivial = distinct words. Configuration families (DESIGN 5.15, 5.16): caller-layouts - every null-aware entry point, the two-series kernels, the user-function drivers and iterator writes into strided / reversed ndarray views and wrapped rings, with an audit of the whole backing storage (every slot of the view written, no cell outside it touched), windows 1, 2, len+1 and usize::MAX, 2^63; second series of length len-1 ..= len+3. Round 8 (DESIGN 5.17): a call that was handed a buffer but returns a container instead (harness assertion) is a fault: no slot of the caller's buffer was written. Round 9 (DESIGN 5.18): broadcast-write - a one-element series written into audited buffers of 2..4 slots in every layout through rolling_custom / rolling2_custom / the fdiff _to forms: every slot holds the one value, no foreign cell is touched.".into(),
+        rule: "history tree of every word over {null,0,1,2}; at each word every rolling entry point (null-aware, plain, two-series), vrank, vpartition, varg_partition, vquantile, Spearman vcorr and half_life run (a) on an instrumented input container recording every uget / uslice and (b) on real Vec / Array1 inputs (fast paths), always into an instrumented output container recording every uset, via the returned and the caller-buffer path; windows 0..=len+3, every min_periods, k in 0..=len+2, second series of length len-1 ..= len+3. The same on long structured series (40 / 270 elements, windows 0, 1, 2, 16, 17, 255..257, len-1..len+3, k around 16 and len). Oracle (monitor): no recorded fault - no index >= len, no slice outside 0<=start<=end<=len, no write outside the buffer, every slot written exactly once at assume_init. Transitions = instrumented accesses observed. Non-trivial = distinct words. Configuration families (DESIGN 5.15, 5.16): caller-layouts - every null-aware entry point, the two-series kernels, the user-function drivers and iterator writes into strided / reversed ndarray views and wrapped rings, with an audit of the whole backing storage (every slot of the view written, no cell outside it touched), windows 1, 2, len+1 and usize::MAX, 2^63; second series of length len-1 ..= len+3. Round 8 (DESIGN 5.17): a call that was handed a buffer but returns a container instead (harness assertion) is a fault: no slot of the caller's buffer was written. Round 9 (DESIGN 5.18): broadcast-write - a one-element series written into audited buffers of 2..4 slots in every layout through rolling_custom / rolling2_custom / the fdiff _to forms: every slot holds the one value, no foreign cell is touched. Round 11 (DESIGN 5.20): vpartition / varg_partition through a trusted collector into the instrumented container (an iterator that yields more than it announces writes behind the buffer the collector allocated).".into(),
         bounds: json!({"alphabet": json_word(&fam.alpha), "L": fam.max_len, "window": "0..=len+3", "k": "0..=len+2", "second_series_len": ["len-1", "len", "len+1", "len+2", "len+3"], "inputs": ["ProbeVec", "Vec", "Array1"], "paths": ["Ret", "Buf"]}),
         assumptions: vec![
             "panics are not judged here unless a fault was recorded first (clean panics on degenerate parameters are allowed by the property; other panics belong to C05/C20)".into(),
